@@ -2,10 +2,13 @@
 // protocols/light_client/constant.rs: REFRESH_PEERS_DURATION = 8 s; local clock readings are far above it
 pub mod constant { pub struct DurationC { pub ms: u128 } impl DurationC { pub fn as_millis(&self) -> (r: u128) ensures r == self.ms { self.ms } } pub const REFRESH_PEERS_DURATION: DurationC = DurationC { ms: 8000 }; }
 #[verifier::external_body]
-pub fn unix_time_as_millis_local() -> (r: u64) ensures r >= 1_000_000 { unimplemented!() }
+pub fn unix_time_as_millis_local() -> (r: u64) ensures r >= 1_000_000, is_now(r) { unimplemented!() }
+pub uninterp spec fn is_now(t: u64) -> bool;          // t is a reading of the local clock taken in this call
 impl Peers {
     #[verifier::external_body]
-    pub fn get_peers_which_have_timeout(&self, now: u64) -> (r: Vec<PeerIndex>) { unimplemented!() }
+    // GATE (C11 "an unanswered request or an unchanged last state leads to disconnection after the message timeout"): the timeouts
+    // are evaluated against the current time (the per-peer predicate `now > t + MESSAGE_TIMEOUT` is under contract in unit peer_state)
+    pub fn get_peers_which_have_timeout(&self, now: u64) -> (r: Vec<PeerIndex>) requires is_now(now) /*props:C11,C16*/ { unimplemented!() }
     #[verifier::external_body]
     pub fn get_peers_which_require_new_state(&self, before_ts: u64) -> (r: Vec<PeerIndex>) { unimplemented!() }
     #[verifier::external_body]
